@@ -125,7 +125,7 @@ let run_case (a : string array) : string =
   | "posix" ->
     let s = bytes_of_hex a.(1) in
     out (show_posix (parsePosixSpec s)) (show_posix (posix_spec s)) (nul_free s)
-  | "fmt" | "parse" | "fp" -> Driver_fmt.run_case a
+  | "fmt" | "parse" | "fp" | "split" | "tfmt" | "tconv" | "tparse" | "join" -> Driver_fmt.run_case a
   | _ -> Driver_zone.run_case a
 
 let () =
